@@ -363,6 +363,18 @@ def run(ck):
         for p in rot:
             Ut, v = p.interp.concrete_items(p.value)
             t = Ut.term
+
+            def _gather_first(a):
+                # Us[:, k][site, row, col] selects the same entries as Us[site, :, row, col][..., k]: one normal form (the gather, then the part)
+                if isinstance(a, T.App) and a.op == "index" and len(a.args[1]) == 3 and isinstance(a.args[0], T.Poly):
+                    x = a.args[0].single_atom()
+                    if (isinstance(x, T.App) and x.op == "index" and len(x.args[1]) == 2 and tuple(x.args[1][0]) == ("slice", None, None, None) and x.args[1][1] in (0, 1)
+                            and all(isinstance(q, tuple) and q and q[0] == "adv" for q in a.args[1])):
+                        sa, ra, ca = a.args[1]
+                        return T.app("index", T.app("index", x.args[0], (sa, ("slice", None, None, None), ra, ca)), ("ellipsis", x.args[1][1]))
+                return None
+
+            t = T.subst(t, _gather_first) if t is not None else None
             idxs = [a for a in (t.all_atoms() if t is not None else []) if isinstance(a, T.App) and a.op == "index" and len(a.args[1]) == 4]
             cand = [a for a in idxs if a.args[1][1] == ("slice", None, None, None)]
             if len(cand) != 1:
@@ -502,7 +514,61 @@ def run(ck):
 
         check_after(ck, "C04.R5", fname + " after the full Hilbert space was generated", fn_.site(), mk,
                     lambda it, c: call(it, c[0], "generate_hilbert_space"), lambda it, c, fn_=fn_: it.call_function(VFunc(fn_), [c[0], c[1], c[2]], {}, None), max_paths=40)
+    # the state's dictionary is part of its state: after an entry was replaced (nn_state.unitary_dict["Y"] = other, or load() of a
+    # file with another dictionary) the next rotation uses the dictionary as it is now
+    for fname, cls in (("rotate_psi_inner_prod", "ComplexWaveFunction"), ("rotate_rho_probs", "DensityMatrix")):
+        fn_ = prog.func(U, fname)
+
+        def mkd(it, cls=cls, fname=fname):
+            s = make_state(it, cls)
+            ud = it.get_attr(s, "unitary_dict", None)
+            for b in "XYZ":
+                ud.obj.items[b] = api.cx_t(it, "D" + b, (2, 2))
+            third = tens(it, "space", (4, 2)) if fname in ("rotate_psi", "rotate_rho") else tens(it, "states", ("B", 2))
+            return (s, VConst("XY"), third)
+
+        def hv(it, s):
+            ud = it.get_attr(s, "unitary_dict", None)
+            mp = {}
+            for b in "XY":
+                it.ops.store_subscript(it, ud, VConst(b), api.cx_t(it, "D" + b + "'", (2, 2)), None) if hasattr(it.ops, "store_subscript") else ud.obj.items.__setitem__(b, api.cx_t(it, "D" + b + "'", (2, 2)))
+                for part in "ri":
+                    mp["D%s%s" % (b, part)] = "D%s'%s" % (b, part)
+            return mp
+
+        check_history(ck, "C04.R5", fname + "/" + cls + " after entries of the state's dictionary were replaced", fn_.site(), mkd,
+                      lambda it, c, fn_=fn_: it.call_function(VFunc(fn_), [c[0], c[1], c[2]], {}, None), max_paths=40, havoc=hv, inputs=False)
     ck.require_min("C04.R5", 4)
+    # ------------------------------------------------------------------ R6 an explicitly given dictionary is the one that is used
+    # "rotating ... gives what the Kronecker product of the per-site unitaries gives": with `unitaries=` given, the per-site
+    # unitaries are the given ones for every letter the dictionary defines - also for the letters X, Y, Z the state defines too
+    for fname, cls, kw in (("rotate_psi", "ComplexWaveFunction", "psi"), ("rotate_rho", "DensityMatrix", "rho"),
+                           ("rotate_psi_inner_prod", "ComplexWaveFunction", "psi"), ("rotate_rho_probs", "DensityMatrix", "rho")):
+        fn_ = prog.func(U, fname)
+        inst = "%s(unitaries=given)" % fname
+        with ck.guard("C04.R6", inst, fn_.site()):
+            def thx(it, fn_=fn_, cls=cls, kw=kw, fname=fname):
+                s = make_state(it, cls)
+                D = it.new_dict({b: api.cx_t(it, "E" + b, (2, 2)) for b in "XYZ"})
+                third = tens(it, "space", (4, 2)) if fname in ("rotate_psi", "rotate_rho") else tens(it, "states", ("B", 2))
+                given = api.cx_t(it, "GIVEN", (4,) if kw == "psi" else (4, 4))
+                return it.call_function(VFunc(fn_), [s, VConst("XY"), third], {"unitaries": D, kw: given}, None)
+
+            ps_ = [p for p in paths_of(prog, thx, sticky=True, max_paths=30) if p.outcome == "return"]
+            ck.check(bool(ps_), "C04.R6", inst + ":returns", fn_.site(), "never returns with an explicit dictionary")
+            for p in ps_:
+                if some_selected(p, "_rotate_basis_state") is False:
+                    continue  # the branch "no rotated site": not a path of the basis 'XY'
+                t_ = p.value.term if isinstance(p.value, VTens) else None
+                if t_ is None:
+                    ck.undecided("C04.R6", inst + " [%s]" % _c(p), fn_.site(), "the rotated result is not followed")
+                    continue
+                sy = t_.syms()
+                used = {b for b in "XY" if any(n_.startswith("E" + b) for n_ in sy)}
+                ck.check(used == {"X", "Y"}, "C04.R6", inst + ":the given X and Y are the ones applied [%s]" % _c(p), fn_.site(),
+                         "with unitaries={X: EX, Y: EY, Z: EZ} and basis 'XY' the result does not depend on the given %s: the state's own dictionary is used for a letter the given dictionary defines"
+                         % " and ".join("E" + b for b in "XY" if b not in used))
+    ck.require_min("C04.R6", 6)
     ck.require_min("C04.R1", 12)
     ck.require_min("C04.R2", 10)
     ck.require_min("C04.R3", 6)
